@@ -4,7 +4,8 @@ CONSTANTS Keys = {1}
           BatchVals = {1}
           ThrVals = {0}
           BadSets = {{}}
-INVARIANTS NoRejectedAnnounced OnlyStreamKeys BatchBound AllAllowedAnnounced CarryOnlyRejected
+          PlanModes = {}
+INVARIANTS NoRejectedAnnounced OnlyStreamKeys BatchBound AllAllowedAnnounced CarryOnlyRejected EveryPassComplete
 CONSTRAINT TraceConstraint
 POSTCONDITION TracePost
 CHECK_DEADLOCK FALSE
